@@ -843,6 +843,9 @@ class Glob(Generic[AnyStr]):
                         for start, is_dir in results:
                             rest = pattern[1:]
                             if rest:
+                                if not is_dir:
+                                    # A file cannot be descended into: `file/**` must not yield `file/`
+                                    continue
                                 this = rest.pop(0)
                                 for match, is_dir in self._glob(start, this, rest):
                                     if not self._is_excluded(match, is_dir):
